@@ -272,6 +272,13 @@ func (b *bare) run(in Input) (obs Obs) {
 		}
 		rec.add(Rec{Kind: "O"})
 		var opErr error
+		var pushMu sync.Mutex
+		var pushed *Snap
+		onPush := func(args map[string]string) {
+			pushMu.Lock()
+			pushed = pushOf(args)
+			pushMu.Unlock()
+		}
 		done := make(chan struct{})
 		go func() {
 			defer close(done)
@@ -281,12 +288,12 @@ func (b *bare) run(in Input) (obs Obs) {
 				env.VerifC08CancelPending()
 			case "FORCE_ERROR":
 				// the sequence of the workflow-state watcher (subscribeToWfState)
-				opErr = env.TryTransition(anyTransition("GO_ERROR", op, rec, env))
+				opErr = env.TryTransition(anyTransition("GO_ERROR", op, rec, env, onPush))
 				if opErr != nil {
 					env.ForceError() // what the watcher and ControlEnvironment do when GO_ERROR fails
 				}
 			default:
-				opErr = env.TryTransition(anyTransition(op.Ev, op, rec, env))
+				opErr = env.TryTransition(anyTransition(op.Ev, op, rec, env, onPush))
 			}
 		}()
 		select {
@@ -307,6 +314,9 @@ func (b *bare) run(in Input) (obs Obs) {
 		if vs, err := env.Workflow().ConsolidatedVarStack(); err == nil {
 			oo.Vars = snapOf(vs)
 		}
+		pushMu.Lock()
+		oo.Push = pushed
+		pushMu.Unlock()
 		obs.Ops = append(obs.Ops, oo)
 	}
 	// let call goroutines that are still sleeping finish, so that their records do not leak into
@@ -339,7 +349,7 @@ func waitQuiet(rec *Recorder) {
 // realTransition: the package's own transition object for the event, run against a stand-in task
 // manager (a buffered message channel); the answer to its request is delivered the way the
 // environment manager does it.
-func realTransition(name string, op *Op, rec *Recorder, env *environment.Environment) environment.Transition {
+func realTransition(name string, op *Op, rec *Recorder, env *environment.Environment, onPush func(map[string]string)) environment.Transition {
 	taskman := &task.Manager{MessageChannel: make(chan *task.TaskmanMessage, 1)}
 	var t environment.Transition
 	switch name {
@@ -359,7 +369,14 @@ func realTransition(name string, op *Op, rec *Recorder, env *environment.Environ
 		}
 		go func() {
 			select {
-			case <-taskman.MessageChannel:
+			case msg := <-taskman.MessageChannel:
+				if onPush != nil {
+					args := map[string]string{}
+					for k, v := range msg.GetArguments() {
+						args[k] = v
+					}
+					onPush(args)
+				}
 			case <-time.After(10 * time.Second):
 				return
 			}
@@ -372,9 +389,9 @@ func realTransition(name string, op *Op, rec *Recorder, env *environment.Environ
 	}}
 }
 
-func anyTransition(name string, op *Op, rec *Recorder, env *environment.Environment) environment.Transition {
+func anyTransition(name string, op *Op, rec *Recorder, env *environment.Environment, onPush func(map[string]string)) environment.Transition {
 	if op.Real {
-		return realTransition(name, op, rec, env)
+		return realTransition(name, op, rec, env, onPush)
 	}
 	return mkTransition(name, op, rec)
 }
